@@ -503,7 +503,9 @@ private:
                     more_ = false;
                     return;
                 }
-                visitor.string_value(string_view(reinterpret_cast<const char*>(&ch), 1), semantic_tag::none, *this, ec);
+                // keep the character in a member: a cursor holds on to the view after this function returns
+                text_buffer_.assign(1, static_cast<char>(ch));
+                visitor.string_value(string_view(text_buffer_.data(), 1), semantic_tag::none, *this, ec);
                 more_ = !cursor_mode_;
                 break;
             }
